@@ -139,7 +139,7 @@ def run(ctx):
                 continue
             if not ctx.thorough and l["c"] == 3:
                 continue
-            for pat in ("zero", "ones", "max", "count", "rand") if not ctx.thorough else ("zero", "ones", "min", "max", "one", "count", "rand", "rand"):
+            for pat in ("zero", "ones", "min", "max", "count", "rand") if not ctx.thorough else ("zero", "ones", "min", "max", "one", "count", "rand", "rand"):
                 P0 = build.zero_hp(l, walk.fill(l, pat, rng, cfgdb))
                 yield ("c03", {"_k": "rt:%d:%s:%s" % (li, pat, P0.hex()[:48]), "lay": l, "P0": P0.hex(), "only": None})
             # (ii) random subset: drop ~half of the non-structural attributes
